@@ -358,9 +358,8 @@ func (fg *FuncGen) call(v *ssa.Call, c *ssa.CallCommon, instr ssa.Instruction) {
 		env.vars = bind
 		for i, r := range con.Requires {
 			t := env.Tr(r.E)
-			if fg.err != nil {
-				fg.err = fmt.Errorf("%s (at call in %s): %v", r.Pos, fg.key, fg.err)
-				return
+			if fg.clauseFailed(r) {
+				continue
 			}
 			tags := pick(r.Tags, safetyTags)
 			lbl := r.Label
@@ -477,9 +476,8 @@ func (fg *FuncGen) call(v *ssa.Call, c *ssa.CallCommon, instr ssa.Instruction) {
 		}
 		for _, en := range con.Ensures {
 			t := env.Tr(en.E)
-			if fg.err != nil {
-				fg.err = fmt.Errorf("%s (at call in %s): %v", en.Pos, fg.key, fg.err)
-				return
+			if fg.clauseFailed(en) {
+				continue
 			}
 			fg.assume(t.S)
 		}
@@ -803,9 +801,8 @@ func (fg *FuncGen) siteAsserts(v *ssa.Call, callee *ssa.Function, args []TTerm) 
 			return TTerm{}, false
 		}
 		t := env.Tr(sa.C.E)
-		if fg.err != nil {
-			fg.err = fmt.Errorf("%s: %v", sa.C.Pos, fg.err)
-			return
+		if fg.clauseFailed(sa.C) {
+			continue
 		}
 		if sa.Assume {
 			fg.assume(t.S)
